@@ -558,3 +558,6 @@ var ErrSkip = errors.New("skip")
 var quietOnce sync.Once
 
 func fileClient(dir string) *file.ReplicaClient { return file.NewReplicaClient(dir) }
+
+// Take exposes the captured log lines (debugging aid).
+func (l *logCapture) Take() []string { return l.take() }
